@@ -116,27 +116,33 @@ def property_file(prop):
     return os.path.join(COQ, "theories", "Properties", prop + ".v")
 
 
-def proof_step(prop, extra_targets=()):
+def proof_step(prop, extra_targets=(), extra_files=()):
     """Build the property file (and everything it depends on) with full .vo
     compilation, then re-run coqc on the property file to capture
     Print Assumptions.  Returns dict."""
-    pf = property_file(prop)
-    src = open(pf, encoding="utf-8").read()
-    theorems = re.findall(r"^\s*Theorem\s+([A-Za-z0-9_']+)", src, re.M)
+    files = [prop] + list(extra_files)   # further statement-only files of the same property
+    theorems = []
+    for f in files:
+        src = open(property_file(f), encoding="utf-8").read()
+        theorems += re.findall(r"^\s*Theorem\s+([A-Za-z0-9_']+)", src, re.M)
     t0 = time.time()
-    rc, out = coq_make(["theories/Properties/%s.vo" % prop] + list(extra_targets))
+    rc, out = coq_make(["theories/Properties/%s.vo" % f for f in files] + list(extra_targets))
     res = {"theorems": theorems, "obligations": len(theorems), "discharged": 0,
            "ok": rc == 0, "log": out[-6000:], "axioms": {}, "wall": 0.0}
     if rc == 0:
-        rc2, out2 = sh(["coqc", "-Q", "theories", "Dials",
-                        "-w", "-notation-overridden,-deprecated-hint-without-locality",
-                        "theories/Properties/%s.v" % prop], cwd=COQ, timeout=1200)
-        res["ok"] = rc2 == 0
-        if rc2 == 0:
+        allout, ok = "", True
+        for f in files:
+            rc2, out2 = sh(["coqc", "-Q", "theories", "Dials",
+                            "-w", "-notation-overridden,-deprecated-hint-without-locality",
+                            "theories/Properties/%s.v" % f], cwd=COQ, timeout=1200)
+            allout += out2
+            if rc2 != 0:
+                ok = False
+                res["log"] = out2[-6000:]
+        res["ok"] = ok
+        if ok:
             res["discharged"] = len(theorems)
-            res["axioms"] = parse_assumptions(out2)
-        else:
-            res["log"] = out2[-6000:]
+            res["axioms"] = parse_assumptions(allout)
     res["wall"] = time.time() - t0
     return res
 
